@@ -219,6 +219,68 @@ void h_bkstruct(void) {
 }
 #endif
 
+#ifdef H_KEYOBJ
+/* C05: the four single-key / key-switching-key exporters and importers (write_lweKey / read_new_lweKey, write_tLweKey / read_new_tLweKey,
+ * write_tGswKey / read_new_tGswKey, write_lweKeySwitchKey / read_new_lweKeySwitchKey): sections mirrored, parameter text present exactly
+ * when the importer is not given the parameters, the object constructed from the parameters given or read (key-switching key: from the
+ * shape read), content read into the object just constructed, which is returned */
+enum { S_TLWEPARAMS = 20, S_TLWEKEYCONTENT, X_NEWOBJ };
+void write_lweParams(const Ostream *F, const LweParams *p) { rec(S_LWEPARAMS, F, p); }
+void write_tLweParams(const Ostream *F, const TLweParams *p) { rec(S_TLWEPARAMS, F, p); }
+void write_tGswParams(const Ostream *F, const TGswParams *p) { rec(S_TGSWPARAMS, F, p); }
+void write_lweKey_content(const Ostream *F, const LweKey *k) { rec(S_LWEKEYCONTENT, F, k); }
+void write_tLweKey_content(const Ostream *F, const TLweKey *k) { rec(S_TLWEKEYCONTENT, F, k); }
+void write_tGswKey_content(const Ostream *F, const TGswKey *k) { rec(S_TGSWKEYCONTENT, F, k); }
+void write_LweKeySwitchParameters_section(const Ostream *F, const LweKeySwitchKey *ks) { rec(S_KSPARAMS, F, ks); }
+void write_LweKeySwitchKey_content(const Ostream *F, const LweKeySwitchKey *ks) { rec(S_KSCONTENT, F, ks); }
+static LweParams r_lp; static TLweParams r_tp; static TGswParams r_gp; static LweKey n_lk; static TLweKey n_tk; static TGswKey n_gk; static LweKeySwitchKey n_ks;
+static const void *c_par; static int32_t c_n, c_t, c_bb, in_n, in_t, in_bb; static int g_registered; static const void *g_reg_obj;
+LweParams *read_new_lweParams(const Istream *F) { rec(S_LWEPARAMS, F, 0); return &r_lp; }
+TLweParams *read_new_tLweParams(const Istream *F) { rec(S_TLWEPARAMS, F, 0); return &r_tp; }
+TGswParams *read_new_tGswParams(const Istream *F) { rec(S_TGSWPARAMS, F, 0); return &r_gp; }
+void read_lweKey_content(const Istream *F, LweKey *k) { rec(S_LWEKEYCONTENT, F, k); }
+void read_tLweKey_content(const Istream *F, TLweKey *k) { rec(S_TLWEKEYCONTENT, F, k); }
+void read_tGswKey_content(const Istream *F, TGswKey *k) { rec(S_TGSWKEYCONTENT, F, k); }
+struct LweKeySwitchParameters;
+void read_lweKeySwitchParameters_section(const Istream *F, struct LweKeySwitchParameters *reps);
+void read_lweKeySwitchKey_content(const Istream *F, LweKeySwitchKey *ks) { rec(S_KSCONTENT, F, ks); }
+LweKey *new_LweKey(const LweParams *p) { rec(X_NEWOBJ, 0, p); c_par = p; return &n_lk; }
+TLweKey *new_TLweKey(const TLweParams *p) { rec(X_NEWOBJ, 0, p); c_par = p; return &n_tk; }
+TGswKey *new_TGswKey(const TGswParams *p) { rec(X_NEWOBJ, 0, p); c_par = p; return &n_gk; }
+LweKeySwitchKey *new_LweKeySwitchKey(int32_t n, int32_t t, int32_t basebit, const LweParams *out_params) { rec(X_NEWOBJ, 0, out_params); c_par = out_params; c_n = n; c_t = t; c_bb = basebit; return &n_ks; }
+void TfheGarbageCollector__register_param(void *p) { g_registered++; g_reg_obj = p; }
+#include "extracted.inc"
+void read_lweKeySwitchParameters_section(const Istream *F, LweKeySwitchParameters *reps) { rec(S_KSPARAMS, F, reps); reps->n = in_n; reps->t = in_t; reps->basebit = in_bb; }
+/* the importer's trace: stream sections only, and the object is constructed before its content is read */
+static void filter2(int w, const int *id, int len) { int n = 0; for (int i = 0; i < TRMAX; i++) if (i < len && id[i] != X_NEWOBJ) f_id[w][n++] = id[i]; f_len[w] = n; }
+#define MIRRORED2(what) do { filter2(0, t1_id, t1_len); filter2(1, g_id, g_len); \
+    A05(f_len[0] == f_len[1], what ": the importer reads as many sections as the exporter wrote"); \
+    for (int i_ = 0; i_ < TRMAX; i_++) if (i_ < f_len[0] && i_ < f_len[1]) A05(f_id[0][i_] == f_id[1][i_], what ": the importer reads the sections in the order the exporter wrote them"); } while (0)
+static int new_before_content(int content_id, const void *obj) { int pn = -1, pc = -1; for (int i = 0; i < TRMAX; i++) if (i < g_len) { if (g_id[i] == X_NEWOBJ) pn = i; if (g_id[i] == content_id && g_obj[i] == obj) pc = i; } return pn >= 0 && pc > pn; }
+void h_keyobj(void) {
+    static char d_F; const Ostream *F = (const Ostream *)&d_F; const Istream *G = (const Istream *)&d_F; bool flag;
+    static LweParams lp; static TLweParams tp; static TGswParams gp;
+    /* LWE key */
+    LweKey lk; lk.params = &lp; g_len = 0; write_lweKey(F, &lk, flag); keep();
+    g_registered = 0; LweKey *rl = read_new_lweKey(G, flag ? 0 : &lp);
+    MIRRORED2("LWE key"); A05(rl == &n_lk && c_par == (const void *)(flag ? &r_lp : &lp) && new_before_content(S_LWEKEYCONTENT, &n_lk) && g_registered == (flag ? 1 : 0), "LWE key: constructed from the parameters given or read (then registered), content read into it, returned");
+    /* TLWE key (always with its parameters) */
+    TLweKey tk; tk.params = &tp; g_len = 0; write_tLweKey(F, &tk); keep();
+    g_registered = 0; TLweKey *rt = read_new_tLweKey(G);
+    MIRRORED2("TLWE key"); A05(rt == &n_tk && c_par == (const void *)&r_tp && new_before_content(S_TLWEKEYCONTENT, &n_tk) && g_registered == 1 && g_reg_obj == (const void *)&r_tp, "TLWE key: constructed from the parameters read (registered), content read into it, returned");
+    /* TGSW key */
+    TGswKey gk; gk.params = &gp; g_len = 0; write_tGswKey(F, &gk, flag); keep();
+    g_registered = 0; TGswKey *rg = read_new_tGswKey(G, flag ? 0 : &gp);
+    MIRRORED2("TGSW key"); A05(rg == &n_gk && c_par == (const void *)(flag ? &r_gp : &gp) && new_before_content(S_TGSWKEYCONTENT, &n_gk) && g_registered == (flag ? 1 : 0), "TGSW key: constructed from the parameters given or read (then registered), content read into it, returned");
+    /* key-switching key */
+    LweKeySwitchKey ks; ks.out_params = &lp; int32_t a, b, c; in_n = a; in_t = b; in_bb = c; g_len = 0; write_lweKeySwitchKey(F, &ks, flag); keep();
+    g_registered = 0; LweKeySwitchKey *rk = read_new_lweKeySwitchKey(G, flag ? 0 : &lp);
+    MIRRORED2("key-switching key"); A05(rk == &n_ks && c_par == (const void *)(flag ? &r_lp : &lp) && c_n == a && c_t == b && c_bb == c && new_before_content(S_KSCONTENT, &n_ks) && g_registered == (flag ? 1 : 0),
+        "key-switching key: constructed with the shape read from its parameter section and the output parameters given or read, rows read into it, returned");
+    VERIF_REACH();
+}
+#endif
+
 #ifdef H_KS
 #include "extracted.inc"
 #define B_n 2
